@@ -154,6 +154,25 @@ for fam, code, cprop, fro, fmu in FAMS:
               "two WF arenas of N=%d slots each, any pair of view locations, any injected stack of <= %d entries satisfying StackInv; one next(); stack read back; entry probes; %s; unwind %d" % (n, k, P8, n + 3),
               (fmu if mut else fro)[1:], cost=cost, stub="growmodel")
 
+HELPERS = {"union": (0, "C05", ["next_indices", "next_indices_first_l", "next_indices_first_r"]),
+           "inter": (1, "C06", ["next_indices", "next_indices_first_a", "next_indices_first_b"]),
+           "diff": (2, "C07", ["next_indices", "next_indices_first_a", "next_indices_first_b"])}
+for fam, (code, cprop, fns) in HELPERS.items():
+    for which, fn in enumerate(fns):
+        for n, tier, cost in ((2, "quick", 60), (3, "quick", 120), (4, "thorough", 600)):
+            h("%s_helper%d_n%d" % (fam, which, n), n + 2, "setops::helper::<_, %d, %d, %d>" % (code, which, n), [cprop, "C20"], tier,
+              "two WF arenas of N=%d slots each, any pair of reachable nodes%s; the private helper called through its verif-hooks wrapper; returned entries vs scope oracle (two probes); unwind %d"
+              % (n, "" if which == 0 else " in the strict-cover relation the helper expects", n + 2),
+              ["trieview::%s::%s" % ({"union": "union", "inter": "intersection", "diff": "difference"}[fam], fn)], cost=cost, stub="growmodel")
+
+h("union_whole_n1", 6, "setops::union_whole::<_, 1>", ["C05", "C08", "C18", "C20"], "quick",
+  "two root-only arenas (N=1 each, any host bits / values, at least one root valued): union() from the real constructor, first item and exhaustion; unwind 6, next() loop 1",
+  ["TrieView::union", "Union::next (Both arm)", "Union::get_next", "union::{next_indices,extend_lpm}"], cost=60, stub="growmodel",
+  unwindset=[{"file": "trieview/union.rs", "func": "Union<.*Iterator>::next", "bound": 1}])
+h("union_whole_n2", 8, "setops::union_whole::<_, 2>", ["C05", "C08", "C18", "C20"], "thorough",
+  "two WF arenas of N=2 slots each, whole-map views: full union traversal from the real constructor (reaches next_indices_first_l/_r); unwind 8",
+  ["TrieView::union", "Union::next", "union::{next_indices,next_indices_first_l,next_indices_first_r,extend_lpm}"], cost=3000, stub="growmodel", optional=True, mem_gb=40)
+
 # Union / UnionMut Step is too large as one query (all five arms x several loop bodies): one instance per
 # kind of the top entry, the top entry yields at once, exactly one body of next() (per-loop unwind bound).
 UKINDS = ["Both", "FirstL", "FirstR", "OnlyL", "OnlyR"]
@@ -164,7 +183,7 @@ for mut in (False, True):
             h("union_step%d_%s_n%d" % (kind, m, n), n + 3, "setops::run::<_, 0, %s, false, %s, %d, %d, 1, 4>" % (str(mut).lower(), str(not mut).lower(), kind, n),
               ["C05", "C18", "C20"] + (["C13", "C14"] if mut else ["C08"]), tier,
               "two WF arenas of N=%d slots each, any pair of view locations, a one-entry stack whose entry is %s(l,r) (any l,r satisfying StackInv) and yields an item at once; exactly one loop body of next(); %s; unwind %d, next() loop 1" % (n, kn, P8, n + 3),
-              ["UnionMut::next" if mut else "Union::next", "union::{next_indices,next_indices_first_l,next_indices_first_r,extend_lpm}"], cost=cost, stub="growmodel",
+              ["UnionMut::next" if mut else "Union::next", "union::{next_indices,next_indices_first_l,next_indices_first_r,extend_lpm}"], cost=cost, stub="growmodel", optional=True, mem_gb=30,
               unwindset=[{"file": "trieview/union.rs", "func": ("UnionMut<" if mut else "Union<") + ".*Iterator>::next", "bound": 1}])
 
 # ------------------------------------------------------------------ views
@@ -262,25 +281,25 @@ QUICK = {
     "C03": ["whole_iter_n3", "whole_iter_mut_n3", "whole_into_iter_n3", "whole_keys_values_clone_n3", "step_iter_n3", "step_iter_mut_n3"],
     "C04": ["insert_len_n2", "remove_len_n3", "rkt_len_n3", "rmchildren_len_n3", "clear_n3", "entry_top[013]_len_n2", "entry_handle[012]_len_n2",
             "retain_n2", "clone_n3", "collect2", "view_access[23]_n3", "occ_seq_plain_n2", "obs_set_n3"],
-    "C05": ["union_init_(ro|mut)_n2", "union_step[0-4]_(ro|mut)_n2"],
-    "C06": ["inter_(init|step)_(ro|mut)_n2"],
-    "C07": ["(diff|covdiff)_(init|step)_(ro|mut)_n2"],
-    "C08": ["union_init_ro_n2", "diff_init_(ro|mut)_n2", "diff_step_(ro|mut)_n2", "union_step[0-4]_ro_n2"],
+    "C05": ["union_init_(ro|mut)_n2", "union_helper0_n3", "union_whole_n1"],
+    "C06": ["inter_(init|step)_(ro|mut)_n2", "inter_helper[012]_n3"],
+    "C07": ["(diff|covdiff)_init_(ro|mut)_n2", "covdiff_step_ro_n2", "diff_helper[012]_n3"],
+    "C08": ["union_init_ro_n2", "diff_init_(ro|mut)_n2", "union_whole_n1"],
     "C09": ["obs_spm_n3", "obs_cover_n3", "obs_cover_proj_n2", "obs_set_n3"],
     "C10": ["children_n3", "children_init[012]_n3", "rmchildren_(ret|len|slots)_n3", "retain_n2"],
     "C11": ["view_at_(ro|mut)_n3", "view_nav_(ro|mut)_n3", "view_find[03]_ro_n3", "view_access[02]_n3"],
     "C12": ["view_find[0-3]_(ro|mut)_n3"],
     "C13": ["obs_get_mut_n3", "obs_lpm_mut_n3", "whole_iter_mut_n3", "step_iter_mut_n3", "view_access[0-3]_n3", "inter_step_mut_n2",
-            "covdiff_step_mut_n2", "diff_step_mut_n2", "union_step[03]_mut_n2"],
+            "union_init_mut_n2", "diff_init_mut_n2", "covdiff_init_mut_n2"],
     "C14": ["whole_iter_mut_n3", "step_iter_mut_n3", "view_nav_mut_n3", "view_find[02]_mut_n3", "view_access0_n3", "inter_step_mut_n2",
-            "union_step0_mut_n2", "obs_get_mut_n3", "split_interleave_n3"],
+            "obs_get_mut_n3", "split_interleave_n3"],
     "C15": ["insert_shape_n2", "remove_shape_n[34]", "rkt_shape_n3", "rmchildren_shape_n3", "clear_n3", "entry_top[01]_shape_n2",
             "entry_handle1_shape_n2", "retain_n2", "view_access2_n3", "canon_unique_n3"],
     "C16": ["insert_slots_n2", "remove_slots_n[34]", "rkt_slots_n3", "rmchildren_slots_n3", "clear_n3", "entry_top[01]_slots_n2",
             "entry_handle1_slots_n2", "retain_n2"],
     "C17": ["alg_.*"],
     "C18": ["obs_get_n3", "obs_lpm_n3", "obs_set_n3", "insert_ret_n2", "entry_top[01]_ret_n2", "entry_handle0_ret_n2", "whole_iter_n3",
-            "view_at_ro_n3", "view_access2_n3", "union_step[02]_ro_n2", "inter_step_ro_n2", "collect2"],
+            "view_at_ro_n3", "view_access2_n3", "union_whole_n1", "inter_step_ro_n2", "collect2"],
     "C19": ["eq_map_n2", "eq_set_n2", "clone_n3", "collect2"],
     "C20": ["alg_u8", "alg_u32", "alg_u128", "alg_ipv4net", "obs_get_n3", "obs_cover_n3", "insert_ret_n2", "remove_ret_n3", "rmchildren_slots_n3",
             "entry_handle1_ret_n2", "whole_iter_n3", "view_find0_ro_n3", "inter_step_ro_n2", "retain_n2", "occ_seq_plain_n2",
@@ -288,6 +307,11 @@ QUICK = {
     "SELFTEST": ["selftest_fail"],
 }
 import re as _re
+for x in H:
+    if _re.fullmatch(r"union_helper[12]_n\d", x["name"]):
+        x["optional"] = True
+        x["mem_gb"] = 30
+        x["note"] = "known to exceed memory in CBMC's post-processing (DESIGN.md, C05): reported inconclusive, does not fail the run"
 for x in H:
     x["quick_for"] = [p for p in x["props"] if any(_re.fullmatch(pat, x["name"]) for pat in QUICK.get(p, []))]
 for p, pats in QUICK.items():
@@ -323,11 +347,26 @@ if __name__ == "__main__":
 
 # ------------------------------------------------------------------ MANIFEST.json
 CLAIM_TEXT = {
-    "C01": ("one-step simulation of the abstract map: from every well-formed arena of at most N slots (symbolic contents and topology) each mutator returns the abstract return value and leaves the abstract post-map (probe prefix), and each exact-match observer returns the abstract answer; decided by CBMC's SAT verdict over all inputs in the bound", "§4 C01"),
-    "C04": ("len()/is_empty() delta of every mutator equals the abstract delta from every well-formed, count-consistent state of at most N slots", "§4 C04"),
-    "C15": ("every mutator preserves WF (and CANON where the property demands it) from every WF arena of at most N slots; remove_keep_tree and value-only operations leave child pointers and prefixes unchanged", "§4 C15"),
+    "C01": ("one-step simulation of the abstract map: from every well-formed arena of at most N slots (symbolic contents and topology) each mutator (insert, every Entry path, remove, remove_keep_tree, remove_children, retain, clear, collect of two pairs) returns the abstract return value and leaves the abstract post-map (probe prefix), and each exact-match observer returns the abstract answer", "§4 C01"),
+    "C02": ("get_lpm / get_lpm_prefix / get_lpm_mut / set get_lpm equal the longest covering entry of the abstract map for every well-formed arena of at most N slots (value-less nodes anywhere) and every query", "§4 C02"),
+    "C03": ("whole traversals from the real constructors (iter, iter_mut, into_iter, keys/values, clone) at N=3 with a probe prefix, plus Init/Step obligations on injected stacks: each entry once, ascending, fused", "§4 C03"),
+    "C04": ("len()/is_empty() delta of every mutator equals the abstract delta from every well-formed, count-consistent state of at most N slots; includes Entry handles, clone, collect and mutable views", "§4 C04"),
+    "C05": ("union / union_mut: Init obligation on the real constructors for every pair of view locations (stack invariant, nothing lost), contract of the pair classifier next_indices, and the first item of a 1+1 traversal; the one-sided descent helpers and the Step of Union::next exceed CBMC's memory and are NOT decided (DESIGN.md §6)", "§4 C05"),
+    "C06": ("intersection / intersection_mut: Init on the real constructors for every pair of view locations, helper contracts (no common entry pruned), and the Step of next() from every stack satisfying the stack invariant (2+2 slots)", "§4 C06"),
+    "C07": ("difference / covering_difference and their _mut twins: Init on the real constructors for every pair of view locations, helper contracts, Step of CoveringDifference::next (quick) and of the other three iterators (thorough)", "§4 C07"),
+    "C08": ("LPM annotations: the constructors of union / difference / difference_mut seed exactly the true longest matches for every pair of view locations (Init, S4), the first union item carries the true match; inheritance across next() steps is decided for difference (thorough) and not for union", "§4 C08"),
+    "C09": ("get_spm / get_spm_prefix / cover / cover_keys / cover_values / set twins vs the covering entries of the abstract map (each once, increasing length, first = spm, last = lpm, fused)", "§4 C09"),
+    "C10": ("children / children_mut / into_children start stacks and a whole traversal, remove_children step, retain step with an observing predicate (once per entry, exactly the rejected entries removed)", "§4 C10"),
+    "C11": ("view_at / view_mut_at, left / right / split / has_left / has_right from every view location (node or virtual) against the region oracle; existence iff non-empty on canonical tries", "§4 C11"),
+    "C12": ("find / find_exact / find_lpm / view_at from every view location and every query (inside, covering, disjoint), read-only and mutable (Err hands back the view)", "§4 C12"),
+    "C13": ("mutable lookups, iterators, view accessors and *_mut set operations hand out the value slot of the node the read-only twin yields; a write changes exactly that entry (arena read-back)", "§4 C13"),
+    "C14": ("address and region disjointness: results of find/left/right/split lie inside the consumed view, the two sides are disjoint, one traversal never hands out a slot twice, and a symbolic interleaving of two IterMut over a split equals the sequential result; the compile-time clauses (borrow checking, Send/Sync bounds) are not decidable by symbolic execution (DESIGN.md §6)", "§4 C14"),
+    "C15": ("every mutator preserves WF (and CANON where the property demands it) from every WF arena of at most N slots; remove_keep_tree and value-only operations leave child pointers and prefixes unchanged; canonical tries with equal key sets have equal node sets (lemma)", "§4 C15"),
     "C16": ("every mutator preserves the slot partition (reachable xor free, free list duplicate-free) and grows the arena only when the free list is empty, from every partitioned arena of at most N slots", "§4 C16"),
-    "C18": ("stored representation component of the abstract map: observers return the stored bytes, inserting calls overwrite them with the argument's bytes, other calls leave them", "§4 C18"),
+    "C17": ("the Prefix trait methods of all 14 shipped types against the reference algebra for every representation, every length 0..=width and every bit index 0..=255 (finite domain decided completely, no loop in the code under test)", "§4 C17"),
+    "C18": ("stored representation component of the abstract map: observers, iterators, views and set-operation items return stored bytes, inserting calls overwrite them with the argument's bytes, other calls leave them", "§4 C18"),
+    "C19": ("== / != of two maps and of two sets against the sequence oracle (2+2 slots), clone() equality and independence, rebuild from the own entries in another order; the serde wire formats are not decidable here (DESIGN.md §6)", "§4 C19"),
+    "C20": ("Kani's panic / unwrap / unreachable / index / overflow / unwinding checks over the harnesses of all other properties (every public entry point from every invariant state inside the bound), handle-call sequences, and callback-time observations modelling a panicking user callback", "§4 C20"),
 }
 NOT_YET = "harnesses for this property are not built yet in this revision"
 
